@@ -23,7 +23,7 @@ fn hexs(b: &[u8]) -> String {
     s
 }
 fn fb(x: (f32, f32)) -> String {
-    format!("ok {:x} {:x}", x.0.to_bits(), x.1.to_bits())
+    format!("ok bounds {:x} {:x}", x.0.to_bits(), x.1.to_bits())
 }
 fn u128_of(s: &str) -> u128 {
     u128::from_str_radix(s, 16).expect("u128")
@@ -284,6 +284,38 @@ fn run(op: &str, a: &[&str]) -> String {
                 Err(_) => "err utf8".to_string(),
             }
         }
+        // operations whose code carries debug assertions that earlier failed (DESIGN 5.1 #13, #14, #25):
+        // the answers of the debug and the release builds are compared
+        "qnext" => {
+            let (x, lim) = (rbig(a[0], a[1]), ubig(a[2]));
+            format!("ok {} {}", show_q(&x.next_up(&lim)), show_q(&x.next_down(&lim)))
+        }
+        "qtof64" => {
+            let x = rbig(a[0], a[1]);
+            let (f, e) = match x.to_f64() {
+                Exact(f) => (f, "Exact"),
+                Inexact(f, Sign::Positive) => (f, "Pos"),
+                Inexact(f, Sign::Negative) => (f, "Neg"),
+            };
+            let (g, e2) = match x.to_f32() {
+                Exact(f) => (f, "Exact"),
+                Inexact(f, Sign::Positive) => (f, "Pos"),
+                Inexact(f, Sign::Negative) => (f, "Neg"),
+            };
+            format!("ok {:x} {} {:x} {}", f.to_bits(), e, g.to_bits(), e2)
+        }
+        "ftof64" => with_float!(a[0], a[1], |R, B| {
+            let v = FBig::<R, B>::from_repr(repr_of::<B>(a[3], a[4]), Context::new(usz(a[2])));
+            let (f, e) = match v.to_f64() {
+                Exact(f) => (f, "Exact"),
+                Inexact(f, r) => (f, rounding_str(r)),
+            };
+            let (g, e2) = match v.to_f32() {
+                Exact(f) => (f, "Exact"),
+                Inexact(f, r) => (f, rounding_str(r)),
+            };
+            format!("ok {:x} {} {:x} {}", f.to_bits(), e, g.to_bits(), e2)
+        }),
         // -------------------------------------------------------------------------- serialization
         "ser_ubig" => {
             let x = ubig(a[0]);
@@ -348,9 +380,21 @@ fn run(op: &str, a: &[&str]) -> String {
         "dej_ibig" => { let b = unhex(a[0]); de_js!(IBig, &b[..], |v| format!("{} {}", hi(&v), b01(lay_i(&v)))) }
         "dej_rbig" => { let b = unhex(a[0]); de_js!(RBig, &b[..], |v| show_q(&v)) }
         "dej_relaxed" => { let b = unhex(a[0]); de_js!(Relaxed, &b[..], |v| show_qr(&v)) }
-        "dej_fbig" => with_float!(a[0], a[1], |R, B| { let b = unhex(a[2]); de_js!(FBig<R, B>, &b[..], |v| show_f(&v)) }),
+        // floats: the text form does not carry the precision (Display prints the digits of the
+        // significand only), so the re-decoded value is compared as a number, not with its precision
+        "dej_fbig" => with_float!(a[0], a[1], |R, B| {
+            let b = unhex(a[2]);
+            match serde_json::from_slice::<FBig<R, B>>(&b[..]) {
+                Ok(v) => {
+                    let again = js(&v);
+                    let back: FBig<R, B> = serde_json::from_str(&again).expect("re-decoding a re-encoded value");
+                    format!("ok {} {} {}", show_f(&v), hexs(again.as_bytes()), b01(hrepr(v.repr()) == hrepr(back.repr())))
+                }
+                Err(_) => "err decode".to_string(),
+            }
+        }),
         // which build is this?  (word bits, debug assertions) - informational, canonicalised away
-        "config" => format!("ok {:x} {}", WB, b01(cfg!(debug_assertions))),
+        "config" => format!("ok config {:x} {}", WB, b01(cfg!(debug_assertions))),
         _ => format!("err unknown-op-{}", op),
     }
 }
